@@ -228,8 +228,8 @@ impl LedgerOracle {
     }
 }
 
-impl Oracle for LedgerOracle {
-    fn step(&mut self, _world: &World, step: &Step) -> Option<Violation> {
+impl LedgerOracle {
+    fn step_in_order(&mut self, _world: &World, step: &Step) -> Option<Violation> {
         let live_at_start: BTreeSet<u64> = self.ledger.live().map(|e| e.id).collect();
         let newest_before_step: Option<u64> = self.ledger.events.keys().next_back().copied();
         if step.connected || step.disconnected {
@@ -353,8 +353,12 @@ impl Oracle for LedgerOracle {
             if phase == 0 {
                 // (b) releases
                 let mut groups: Vec<(Vec<u64>, Option<([usize; 3], [usize; 8])>)> = Vec::new();
+                let mut end_orders: Vec<u64> = Vec::new();
                 let mut cur: Option<Vec<u64>> = None;
-                for (_, cb) in &step.callbacks {
+                for (ci, (_, cb)) in step.callbacks.iter().enumerate() {
+                    if matches!(cb, Cb::EndConfirm { .. }) {
+                        end_orders.push(step.callback_orders.get(ci).copied().unwrap_or(u64::MAX));
+                    }
                     match cb {
                         Cb::BeginConfirm => cur = Some(Vec::new()),
                         Cb::EventCleared(id) => match cur.as_mut() {
@@ -376,7 +380,28 @@ impl Oracle for LedgerOracle {
                         _ => {}
                     }
                 }
-                for (cleared, counts) in &groups {
+                for (gi, (cleared, counts)) in groups.iter().enumerate() {
+                    // user transactions of this step that ran after this end_confirm (at a later lock point): what they
+                    // created did not exist yet, what they discarded still did
+                    let end_order = end_orders.get(gi).copied().unwrap_or(u64::MAX);
+                    let mut created_later: BTreeSet<u64> = BTreeSet::new();
+                    let mut discarded_later: BTreeSet<u64> = BTreeSet::new();
+                    for tl in &step.timeline {
+                        if let TL::Update { info, order, .. } = tl {
+                            if *order > end_order {
+                                match info {
+                                    crate::outstation::database::UpdateInfo::Created(id) => {
+                                        created_later.insert(*id);
+                                    }
+                                    crate::outstation::database::UpdateInfo::Overflow { created, discarded } => {
+                                        created_later.insert(*created);
+                                        discarded_later.insert(*discarded);
+                                    }
+                                    _ => {}
+                                }
+                            }
+                        }
+                    }
                     let carrier_kind;
                     let expected: Vec<u64> = match sent_confirm {
                         Some((true, seq))
@@ -523,7 +548,10 @@ impl Oracle for LedgerOracle {
                         // discards of this step are already reflected in the library's counters
                         let mut want_c = [0usize; 3];
                         let mut want_t = [0usize; 8];
-                        for e in self.ledger.live() {
+                        for e in self.ledger.events.values().filter(|e| {
+                            (e.state == EvState::Live && !created_later.contains(&e.id))
+                                || (e.state == EvState::Discarded && discarded_later.contains(&e.id))
+                        }) {
                             if e.class >= 1 {
                                 want_c[e.class as usize - 1] += 1;
                             }
@@ -603,41 +631,17 @@ impl Oracle for LedgerOracle {
                         rx.order,
                         newest_before_step,
                     );
-                    // (i) every reported event is a live recorded event with exactly the recorded contents
-                    let mut ids: Vec<u64> = Vec::new();
-                    for m in &events {
-                        // several recorded events may carry identical contents: prefer the oldest one that keeps the order
-                        // ascending (the order itself is still checked below for unambiguous events)
-                        let candidates: Vec<&crate::verif::models::ledger::LedgerEvent> = self
-                            .ledger
-                            .events
-                            .values()
-                            .filter(|e| {
-                                e.state == EvState::Live
-                                    || (e.state == EvState::Discarded
-                                        && discarded_now.contains(&e.id))
-                            })
-                            .filter(|e| !ids.contains(&e.id))
-                            // only events that existed when the fragment was written
-                            .filter(|e| newest_at_write.map(|n| e.id <= n).unwrap_or(true))
-                            .filter(|e| Ledger::matches(e, m))
-                            .collect();
-                        let last = ids.last().copied();
-                        let ascending = |e: &&&crate::verif::models::ledger::LedgerEvent| {
-                            last.map(|l| e.id > l).unwrap_or(true)
-                        };
-                        // events that are still live are preferred over ones discarded during this very step
-                        let found = candidates
-                            .iter()
-                            .filter(|e| e.state == EvState::Live)
-                            .find(ascending)
-                            .or_else(|| candidates.iter().find(|e| e.state == EvState::Live))
-                            .or_else(|| candidates.iter().find(ascending))
-                            .or_else(|| candidates.first())
-                            .copied();
-                        match found {
-                            Some(e) => ids.push(e.id),
-                            None => {
+                    // (i) every reported event is a live recorded event with exactly the recorded contents (several recorded events
+                    // may carry identical contents: see `match_events_before` for the readings tried)
+                    let ids: Vec<u64> = match crate::verif::models::ledger::match_events_before(
+                        &self.ledger,
+                        &events,
+                        &discarded_now,
+                        newest_at_write,
+                    ) {
+                        Ok(ids) => ids,
+                        Err(bad) => {
+                            let m = events[bad];
                                 let same_point: Vec<String> = self
                                     .ledger
                                     .events
@@ -670,9 +674,8 @@ impl Oracle for LedgerOracle {
                                 step.op_index, m.ptype, m.index, m.group, m.var, m.value, m.flags, m.time, same_point
                             ),
                         ));
-                            }
                         }
-                    }
+                    };
                     // (ii) oldest first
                     for w in ids.windows(2) {
                         if w[1] < w[0] {
@@ -984,6 +987,18 @@ impl Oracle for LedgerOracle {
             self.sol.is_some() as u64 * 2 + self.unsol.is_some() as u64,
             discarded_now.len().min(2) as u64,
         ]);
+        None
+    }
+}
+
+impl Oracle for LedgerOracle {
+    fn step(&mut self, world: &World, step: &Step) -> Option<Violation> {
+        // transactions injected at lock points in the middle of a step: judge what came before them first
+        for sub in sout::split_at_lock_updates(step) {
+            if let Some(v) = self.step_in_order(world, &sub) {
+                return Some(v);
+            }
+        }
         None
     }
 
